@@ -24,7 +24,7 @@ theorem setLast_map_getLast (g : SegMeta → SegMeta) : ∀ (l : List SegMeta), 
   | [x], _ => by simp [setLast]
   | x :: y :: l, _ => by
     have := setLast_map_getLast g (y :: l) (by simp)
-    simp only [setLast, this, List.dropLast_cons₂, List.getLast?_cons_cons, List.cons_append]
+    simp only [setLast, this, List.dropLast_cons_cons, List.getLast?_cons_cons, List.cons_append]
 
 theorem lookup_last (i : Nat) (D : Dir) (y : Nat × SegFile) (h : SegIdsFrom i (D ++ [y])) :
     lookup (D ++ [y]) y.1 = some y.2 := by
